@@ -37,10 +37,20 @@ func (r c14Res) canon() string {
 }
 
 type c14Ops[T any] struct {
-	build  func(raw json.RawMessage) (T, error)
+	parse  func(raw json.RawMessage) (any, error) // once per chunk
+	mk     func(parsed any) T                     // fresh Go value for every call
 	concat func([]T) (T, error)
 	out    func(T) any
 }
+
+// parsed chunks are cached per case (keyed by the address of the first chunk)
+type c14Parsed struct {
+	key *json.RawMessage
+	n   int
+	ps  []any
+}
+
+var c14ParseCache c14Parsed
 
 func c14Guard[T any](f func() (T, error)) (v T, class string, info string) {
 	var err error
@@ -63,13 +73,25 @@ func c14Guard[T any](f func() (T, error)) (v T, class string, info string) {
 }
 
 func c14BuildAll[T any](ops c14Ops[T], chunks []json.RawMessage) ([]T, error) {
-	xs := make([]T, 0, len(chunks))
-	for _, c := range chunks {
-		x, err := ops.build(c)
-		if err != nil {
-			return nil, err
+	var ps []any
+	if len(chunks) > 0 && c14ParseCache.key == &chunks[0] && c14ParseCache.n == len(chunks) {
+		ps = c14ParseCache.ps
+	} else {
+		ps = make([]any, 0, len(chunks))
+		for _, c := range chunks {
+			p, err := ops.parse(c)
+			if err != nil {
+				return nil, err
+			}
+			ps = append(ps, p)
 		}
-		xs = append(xs, x)
+		if len(chunks) > 0 {
+			c14ParseCache = c14Parsed{key: &chunks[0], n: len(chunks), ps: ps}
+		}
+	}
+	xs := make([]T, 0, len(ps))
+	for _, p := range ps {
+		xs = append(xs, ops.mk(p))
 	}
 	return xs, nil
 }
@@ -126,41 +148,44 @@ func c14GraphConcat[T any](xs []T) (T, error) {
 	return r.Invoke(ctx, "x")
 }
 
-func c14BuildMsg(raw json.RawMessage) (*schema.Message, error) {
+func c14ParseMsg(raw json.RawMessage) (any, error) {
 	var m *c14Msg
-	if err := json.Unmarshal(raw, &m); err != nil {
-		return nil, err
-	}
-	return c14ToMessage(m), nil
+	err := json.Unmarshal(raw, &m)
+	return m, err
 }
+func c14MkMsg(p any) *schema.Message { return c14ToMessage(p.(*c14Msg)) }
 
-func c14BuildMap(raw json.RawMessage) (map[string]any, error) {
+func c14ParseMap(raw json.RawMessage) (any, error) {
 	v, err := c14ParseVal(raw)
-	if err != nil {
-		return nil, err
-	}
+	return v, err
+}
+func c14MkMap(p any) map[string]any {
+	v := p.(*c14Val)
 	if v == nil {
-		return nil, nil
+		return nil
 	}
-	return c14ToGo(v).(map[string]any), nil
+	return c14ToGo(v).(map[string]any)
 }
 
-func c14BuildStr(raw json.RawMessage) (string, error) {
+func c14ParseStr(raw json.RawMessage) (any, error) {
 	var s string
 	err := json.Unmarshal(raw, &s)
 	return s, err
 }
+func c14MkStr(p any) string { return p.(string) }
 
-func c14BuildArr(raw json.RawMessage) ([]*schema.Message, error) {
+func c14ParseArr(raw json.RawMessage) (any, error) {
 	var ms []*c14Msg
-	if err := json.Unmarshal(raw, &ms); err != nil {
-		return nil, err
-	}
+	err := json.Unmarshal(raw, &ms)
+	return ms, err
+}
+func c14MkArr(p any) []*schema.Message {
+	ms := p.([]*c14Msg)
 	out := make([]*schema.Message, len(ms))
 	for i, m := range ms {
 		out[i] = c14ToMessage(m)
 	}
-	return out, nil
+	return out
 }
 
 func c14ArrOut(ms []*schema.Message) any {
@@ -172,15 +197,15 @@ func c14ArrOut(ms []*schema.Message) any {
 }
 
 var (
-	c14OpsMsgs  = c14Ops[*schema.Message]{build: c14BuildMsg, concat: schema.ConcatMessages, out: func(m *schema.Message) any { return c14MsgOut(m) }}
-	c14OpsCMsgs = c14Ops[*schema.Message]{build: c14BuildMsg, concat: c14StreamConcat[*schema.Message], out: func(m *schema.Message) any { return c14MsgOut(m) }}
-	c14OpsMaps  = c14Ops[map[string]any]{build: c14BuildMap, concat: c14StreamConcat[map[string]any], out: func(m map[string]any) any { return c14ExtraOut(m) }}
-	c14OpsStrs  = c14Ops[string]{build: c14BuildStr, concat: c14StreamConcat[string], out: func(s string) any { return s }}
-	c14OpsArr   = c14Ops[[]*schema.Message]{build: c14BuildArr, concat: c14StreamConcat[[]*schema.Message], out: c14ArrOut}
+	c14OpsMsgs  = c14Ops[*schema.Message]{parse: c14ParseMsg, mk: c14MkMsg, concat: schema.ConcatMessages, out: func(m *schema.Message) any { return c14MsgOut(m) }}
+	c14OpsCMsgs = c14Ops[*schema.Message]{parse: c14ParseMsg, mk: c14MkMsg, concat: c14StreamConcat[*schema.Message], out: func(m *schema.Message) any { return c14MsgOut(m) }}
+	c14OpsMaps  = c14Ops[map[string]any]{parse: c14ParseMap, mk: c14MkMap, concat: c14StreamConcat[map[string]any], out: func(m map[string]any) any { return c14ExtraOut(m) }}
+	c14OpsStrs  = c14Ops[string]{parse: c14ParseStr, mk: c14MkStr, concat: c14StreamConcat[string], out: func(s string) any { return s }}
+	c14OpsArr   = c14Ops[[]*schema.Message]{parse: c14ParseArr, mk: c14MkArr, concat: c14StreamConcat[[]*schema.Message], out: c14ArrOut}
 
-	c14OpsGMsgs = c14Ops[*schema.Message]{build: c14BuildMsg, concat: c14GraphConcat[*schema.Message], out: func(m *schema.Message) any { return c14MsgOut(m) }}
-	c14OpsGMaps = c14Ops[map[string]any]{build: c14BuildMap, concat: c14GraphConcat[map[string]any], out: func(m map[string]any) any { return c14ExtraOut(m) }}
-	c14OpsGStrs = c14Ops[string]{build: c14BuildStr, concat: c14GraphConcat[string], out: func(s string) any { return s }}
+	c14OpsGMsgs = c14Ops[*schema.Message]{parse: c14ParseMsg, mk: c14MkMsg, concat: c14GraphConcat[*schema.Message], out: func(m *schema.Message) any { return c14MsgOut(m) }}
+	c14OpsGMaps = c14Ops[map[string]any]{parse: c14ParseMap, mk: c14MkMap, concat: c14GraphConcat[map[string]any], out: func(m map[string]any) any { return c14ExtraOut(m) }}
+	c14OpsGStrs = c14Ops[string]{parse: c14ParseStr, mk: c14MkStr, concat: c14GraphConcat[string], out: func(s string) any { return s }}
 )
 
 type c14Runner struct {
@@ -826,7 +851,7 @@ func runC14(ctx *vh.Ctx) error {
 	plan := []struct {
 		kind     string
 		quick, t int
-	}{{"msgs", 5000, 120000}, {"cmsgs", 1500, 30000}, {"maps", 2500, 60000}, {"strs", 400, 4000}, {"marr", 600, 12000}}
+	}{{"msgs", 8000, 150000}, {"cmsgs", 2000, 40000}, {"maps", 4000, 80000}, {"strs", 400, 4000}, {"marr", 800, 15000}}
 	const batch = 250
 	for _, p := range plan {
 		n := ctx.N(p.quick, p.t)
